@@ -880,7 +880,10 @@ impl Tree {
         self.init_leaf_index()?;
 
         let v = self.leaf_index.borrow().clone().unwrap();
-        Ok(partition.ones().map(|i| v[i].clone()).collect())
+        partition
+            .ones()
+            .map(|i| v.get(i).cloned().ok_or(TreeError::DifferentTipIndices))
+            .collect()
     }
 
     /// Caches partitions for distance computation
